@@ -169,7 +169,7 @@ static void sw_build_domains(void) {
       "Fe1.2.3", "Fe..", ".", "Fe.", "C.5", "((Ca)2(OH)4)0.5Zr1.5", "\xc3\xa9", "H2O\n", "He1e3", "Mg(OH)2(", "CuSO4(H2O)5", "Og", "Cf", "Es2O3", "Uub", "LiF" };
     for (k = 0; k < (int)(sizeof strs / sizeof strs[0]); k++) sw_STR[sw_nSTR++] = strs[k]; }
   { /* zero / malformed multipliers after groups, and seeded generated formulas (valid and mutated into the rejection classes) */
-    static const char *z[] = { "(H2O)0", "Fe(OH)0", "(SiO2)0.0", "((H)0)2", "(H2O)00", "Ca(OH)2.", "(CH3)3COH", "((CH3)2(CH2))0.5O", "K2(SO4)", "(Es2O3)2H", "GaAs", "PuO2" };
+    static const char *z[] = { "()()()()", "H()()()()()", "(()()()())2", "Ca(()()()()()O)2", "()()()()()()()()()()()()", "((()()()()))", "(H2O)0", "Fe(OH)0", "(SiO2)0.0", "((H)0)2", "(H2O)00", "Ca(OH)2.", "(CH3)3COH", "((CH3)2(CH2))0.5O", "K2(SO4)", "(Es2O3)2H", "GaAs", "PuO2" };
     xv_rng rg; char buf[256]; rg.s = sw_seed * 0x9E3779B97F4A7C15ULL + 4242;
     for (k = 0; k < (int)(sizeof z / sizeof z[0]); k++) sw_STR[sw_nSTR++] = z[k];
     { /* very long inputs: a valid formula of ~6000 characters, a 700-character name, bytes >= 0x80 */
